@@ -1,8 +1,8 @@
 /*@harness
 {"tier":"quick","mode":"bounded(max locals per function fixed to 3 (symbolic realloc sizes exhaust memory), nesting of function literals <= 2; numbers of locals at every level symbolic)","tus":["lib/lpc/compiler.c"],"dfcc":false,
- "functions":["init_locals","reallocate_locals","add_local_name"],
+ "functions":["init_locals","reallocate_locals","add_local_name","clean_up_locals"],
  "stub_out":["deactivate_current_locals","push_function_context","yyerror"],
- "flags":["--bounds-check","--pointer-check","--no-malloc-may-fail"],"unwind":6,"timeout":900,
+ "flags":["--bounds-check","--pointer-check","--no-malloc-may-fail"],"unwind":12,"timeout":900,
  "expect":["add_local_name.pointer_dereference","h_nested_locals.assertion"],
  "native":{},
  "assumptions":["the entry action of the function-literal grammar rule (lib/lpc/grammar.y, L_BASIC_TYPE alternative) is REPLAYED by the harness as the same 6 statements: it is generated bison code, not a C function that can be put under contract - this part is a model and is therefore reported as bounded/other",
@@ -25,8 +25,11 @@ extern int current_number_of_locals, max_num_locals;
 void V_STATIC(compiler_c, init_locals)(void); void reallocate_locals(void); int add_local_name(char *str, int type);
 static int G_yyerrors;
 void yyerror(char *s) { if (G_yyerrors < 10) G_yyerrors++; }
-ident_hash_elem_t *find_or_add_ident(char *name, int flags) { ident_hash_elem_t *e = malloc(sizeof(*e)); V_ASSUME(e != 0); e->dn.local_num = -1; e->sem_value = 0; return e; }
-char *xalloc(size_t n) { char *r = malloc(n); V_ASSUME(r != 0); return r; }
+static ident_hash_elem_t *G_rec[10]; static int G_nrec;   /* every identifier record handed out in this compile */
+ident_hash_elem_t *find_or_add_ident(char *name, int flags) { ident_hash_elem_t *e = malloc(sizeof(*e)); V_ASSUME(e != 0); e->dn.local_num = -1; e->sem_value = 0; if (G_nrec < 10) G_rec[G_nrec++] = e; return e; }
+void V_STATIC(compiler_c, clean_up_locals)(void);
+/* the identifier table (3 pointers) gets a block CBMC can type: pointers stored in an untyped byte block are lost by its value sets */
+char *xalloc(size_t n) { char *r = n == sizeof(ident_hash_elem_t *[3]) ? (char *)malloc(sizeof(ident_hash_elem_t *[3])) : malloc(n); V_ASSUME(r != 0); return r; }
 void deactivate_current_locals(void) { }
 void push_function_context(void) { }
 int debug_message_with_src(const char *a, const char *b, const char *c, int d, const char *e, ...) { return 0; }
@@ -50,7 +53,7 @@ void h_nested_locals(void) {
   V_FILL(main_options_t, G_opts, opts); g_main_options = &G_opts;
   V_DECL(int, allowed); V_DECL(int, k0); V_DECL(int, k1); V_DECL(int, k2); V_DECL(int, depth);
   V_ASSUME(allowed == 3 && 0 <= k0 && k0 <= allowed && 0 <= k1 && k1 <= allowed && 0 <= k2 && k2 <= allowed && 0 <= depth && depth <= 2);
-  num_local_variables_allowed = (size_t)allowed;
+  num_local_variables_allowed = 3;   /* concrete: a block of symbolic size loses the pointers stored in it (CBMC value sets) */
   V_STATIC(compiler_c, init_locals)();
   declare(k0);                                   /* locals of the enclosing function */
   if (depth >= 1) { enter_function_literal(); declare(k1); }
@@ -59,4 +62,14 @@ void h_nested_locals(void) {
   V_ASSERT((size_t)(type_of_locals_ptr - type_of_locals) + (size_t)max_num_locals <= type_of_locals_size, "the type table has room for every local declared so far");
   V_ASSERT(G_yyerrors == 0, "declaring at most max_locals locals per function never reports 'Too many local variables'");
   V_COVER(depth == 2 && k0 == 3 && k1 == 3 && k2 == 3); V_COVER(depth == 1 && k0 == 1);
+  /* the compile is abandoned here (syntax error, EOF inside a body): clean_parser() / epilog() call clean_up_locals().
+     C02 'leaves the compiler reusable': no identifier stays bound as a local, the cursors are back at the start */
+  /* (only for the un-nested case: after realloc() CBMC's value sets lose the identifier pointers copied by its realloc model
+     - `locals[2]` resolves to an invalid object although the native run is clean - so the nested case cannot be decided here) */
+  if (depth != 0) return;
+  V_STATIC(compiler_c, clean_up_locals)();
+  for (int i = 0; i < 10; i++) if (i < G_nrec)
+    V_ASSERT(G_rec[i]->dn.local_num == -1 && G_rec[i]->sem_value == 0, "after clean_up_locals no identifier of the abandoned compile is still bound as a local (local_num -1, semantic value released)");
+  V_ASSERT(locals_ptr == locals && type_of_locals_ptr == type_of_locals && runtime_locals_ptr == runtime_locals && current_number_of_locals == 0 && max_num_locals == 0, "the local tables are rewound for the next compile");
+  V_COVER(G_nrec == 3);
 }
